@@ -90,32 +90,34 @@ def mapMerge (dst : List (String × String)) : List (String × String) → List 
   | [] => dst
   | (k, v) :: rest => mapMerge (mapPut dst k v) rest
 
-/-- `proto.Merge(dst, src)` on messages of type `ty`: scalars overwrite, lists append, maps replace
-per key, singular messages merge recursively (created when absent), and setting a oneof member
-clears the other members. -/
-def mergeFields (S : Schema) (ty : Nat) (dst : Fields) : Fields → Fields
-  | .nil => dst
-  | .cons k v rest =>
-    let nv : Val :=
-      match v with
-      | .sc s => .sc s
-      | .msg sf =>
-        (match dst.get k with
-         | some (.msg df) => .msg (mergeFields S (S.child ty k) df sf)
-         | _ => .msg sf)
-      | .scs xs =>
-        (match dst.get k with
-         | some (.scs ys) => .scs (ys ++ xs)
-         | _ => .scs xs)
-      | .msgs xs =>
-        (match dst.get k with
-         | some (.msgs ys) => .msgs (ys.append xs)
-         | _ => .msgs xs)
-      | .map es =>
-        (match dst.get k with
-         | some (.map ds) => .map (mapMerge ds es)
-         | _ => .map es)
-    mergeFields S ty (dst.set (S.sibs ty k) k nv) rest
+mutual
+  /-- `proto.Merge(dst, src)` on messages of type `ty`: scalars overwrite, lists append, maps
+  replace per key, singular messages merge recursively (created when absent), and setting a oneof
+  member clears the other members. -/
+  def mergeFields (S : Schema) (ty : Nat) (dst : Fields) : Fields → Fields
+    | .nil => dst
+    | .cons k v rest =>
+      mergeFields S ty (dst.set (S.sibs ty k) k (mergeVal S (S.child ty k) (dst.get k) v)) rest
+  /-- The new value of one field: `old` is what dst holds, the argument what src holds. -/
+  def mergeVal (S : Schema) (cty : Nat) (old : Option Val) : Val → Val
+    | .sc s => .sc s
+    | .msg sf =>
+      match old with
+      | some (.msg df) => .msg (mergeFields S cty df sf)
+      | _ => .msg sf
+    | .scs xs =>
+      match old with
+      | some (.scs ys) => .scs (ys ++ xs)
+      | _ => .scs xs
+    | .msgs xs =>
+      match old with
+      | some (.msgs ys) => .msgs (ys.append xs)
+      | _ => .msgs xs
+    | .map es =>
+      match old with
+      | some (.map ds) => .map (mapMerge ds es)
+      | _ => .map es
+end
 
 /-! ## fieldmaskpb -/
 
